@@ -86,12 +86,66 @@ type handled struct {
 	After    rtpconn.VerifClientState
 	Enter    int64
 	Exit     int64
+	At       time.Time // simulated time at Enter
 	StepsIn  int64
 	StepsOut int64
 	Err      bool
 }
 
+// srvMemEvent: a membership change as the server performed it; it took
+// effect somewhere between the stamps Early and Late.
+type srvMemEvent struct {
+	Id     string
+	Group  string
+	Join   bool
+	Early  int64
+	Late   int64
+	Client group.Client
+}
+
+// memberWindow reports whether client id was certainly a member of g
+// during the whole of [from,to] and whether it can have been one at any
+// instant of it.
+func (w *confWorld) memberWindow(id, g string, from, to int64) (throughout, possibly bool) {
+	certain := false // certainly a member now
+	maybe := false   // possibly a member now
+	for _, e := range w.memEv {
+		if e.Id != id || e.Group != g {
+			continue
+		}
+		if e.Late < from {
+			// completed before the window
+			certain, maybe = e.Join, e.Join
+			continue
+		}
+		if e.Early > to {
+			break
+		}
+		// overlaps the window
+		if e.Join {
+			maybe = true
+			possibly = true
+			certain = false
+		} else {
+			if maybe || certain {
+				possibly = true
+			}
+			certain = false
+			maybe = true // could still be in at the start of the overlap
+			// after it, no longer a member
+			throughout = false
+			return false, possibly || maybe
+		}
+	}
+	if certain {
+		return true, true
+	}
+	return false, possibly || maybe
+}
+
 type confWorld struct {
+	addEnter map[string]int64
+	delEnter map[string]srvMemEvent
 	c        *Ctx
 	vfs      *simrt.VFS
 	clients  []*simClient
@@ -101,6 +155,8 @@ type confWorld struct {
 	mux      http.Handler
 	stopped  bool
 	onHandled func(h *handled) // oracle hook at Exit of handleClientMessage
+	onEnter   func(h *handled) // oracle hook at Enter of handleClientMessage
+	memEv     []srvMemEvent    // server-side membership changes (AddClient / DelClient probes)
 	onAction  func(c *simClient, st rtpconn.VerifClientState, typ string, desc string, enter bool)
 	onClientMsg func(sc *simClient, rm recvMsg)
 	panics   int
@@ -124,7 +180,7 @@ func confProcessSetup() {
 
 func newConfWorld(c *Ctx) *confWorld {
 	confProcessSetup()
-	w := &confWorld{c: c, vfs: c.Run.FS(), byAddr: map[string]*simClient{}, inflight: map[string]*handled{}}
+	w := &confWorld{c: c, vfs: c.Run.FS(), byAddr: map[string]*simClient{}, inflight: map[string]*handled{}, addEnter: map[string]int64{}, delEnter: map[string]srvMemEvent{}}
 	webserver.VerifSetStaticRoot(staticDir)
 	w.mux = webserver.VerifConfMux()
 	w.vfs.Put("/sim/data/config.json", []byte(`{"writableGroups": true, "users": {"root": {"password": "rootpw", "permissions": "admin"}}}`))
@@ -150,7 +206,7 @@ func (w *confWorld) installProbes() {
 			if !ok {
 				return
 			}
-			h := &handled{Enter: w.c.Stamp(), StepsIn: r.Steps, Before: wc.VerifState()}
+			h := &handled{Enter: w.c.Stamp(), At: time.Now(), StepsIn: r.Steps, Before: wc.VerifState()}
 			h.Type, h.Kind, h.Id, _, h.Dest, _, h.Value = m.VerifFields()
 			h.Group, _, _, _, _ = m.VerifMore()
 			if a := wc.Addr(); a != nil {
@@ -158,6 +214,9 @@ func (w *confWorld) installProbes() {
 				h.Client = w.byAddr[h.Addr]
 			}
 			w.inflight[t] = h
+			if w.onEnter != nil {
+				w.onEnter(h)
+			}
 			return
 		}
 		h := w.inflight[t]
@@ -172,6 +231,46 @@ func (w *confWorld) installProbes() {
 		w.c.Count("server.messages_handled", 1)
 		if w.onHandled != nil {
 			w.onHandled(h)
+		}
+	})
+	r.Probe("group.AddClient", func(enter bool, args []any) {
+		name, _ := args[0].(string)
+		cl, _ := args[1].(group.Client)
+		if cl == nil {
+			return
+		}
+		t := simrt.CurrentTaskID()
+		if enter {
+			w.addEnter[t] = w.c.Stamp()
+			return
+		}
+		ok := false
+		if g := group.Get(name); g != nil {
+			snap := g.VerifSnapshot()
+			ok = snap.Clients[cl.Id()] == cl
+		}
+		if ok {
+			w.memEv = append(w.memEv, srvMemEvent{Id: cl.Id(), Group: name, Join: true, Early: w.addEnter[t], Late: w.c.Stamp(), Client: cl})
+		}
+	})
+	r.Probe("group.DelClient", func(enter bool, args []any) {
+		cl, _ := args[0].(group.Client)
+		if cl == nil {
+			return
+		}
+		t := simrt.CurrentTaskID()
+		if enter {
+			name := ""
+			if g := cl.Group(); g != nil {
+				name = g.Name()
+			}
+			w.delEnter[t] = srvMemEvent{Id: cl.Id(), Group: name, Early: w.c.Stamp(), Client: cl}
+			return
+		}
+		e := w.delEnter[t]
+		e.Late = w.c.Stamp()
+		if e.Group != "" {
+			w.memEv = append(w.memEv, e)
 		}
 	})
 	r.Probe("rtpconn.handleAction", func(enter bool, args []any) {
